@@ -248,6 +248,7 @@ Act(e) ==
     [] e.ev = "RNext" -> RNext(e)
     [] e.ev = "RRead" -> RRead(e)
     [] e.ev = "QClose" -> QClose(e)
+    [] e.ev = "QAbandon" -> QClose(e)      \* the process died: the buffer is lost (no flush is owed)
     [] e.ev \in {"Next", "Flush"} -> ProducerEv(e)
     [] e.ev \in {"Available", "Counters", "QReopen", "CrashDrain", "CrashFailed",
                  "QOpenFailed", "IO", "Note"} -> NoChange
